@@ -2,7 +2,7 @@
    function of the record list. *)
 From Coq Require Import List NArith ZArith Bool Lia.
 From Coq Require Import ZifyBool ZifyNat ZifyN.
-From NV Require Import CramRec.Features CramRec.SliceHeader.
+From NV Require Import CramRec.Features CramRec.SliceHeader CramRec.FeaturesProofs CramRec.FeaturesMissing.
 Import ListNotations.
 Open Scope N_scope.
 
@@ -674,17 +674,17 @@ Qed.
 (* ---------------------------------------------------------------- the SAM record conversion *)
 Theorem sh_convert_wf : forall refsq s r,
   (forall st, sr_start s = Some st -> 1 <= st) -> sh_convert refsq s = SOk r ->
-  hrec_wf r /\ hr_ref r = sr_ref s /\ hr_start r = sr_start s /\ hr_rl r = len (sr_seq s).
+  hrec_wf r /\ hr_ref r = sr_ref s /\ hr_start r = sr_start s /\
+  (sr_seq s <> [] -> hr_rl r = len (sr_seq s) /\ hr_missing r = false) /\
+  (sr_seq s = [] -> hr_missing r = true).
 Proof.
   intros refsq s r Hst Hc. unfold sh_convert in Hc.
-  assert (Hgoal : forall fs, hrec_wf (mk_hrec (sr_ref s) (sr_start s) (len (sr_seq s)) fs)).
-  { intros fs st Hs. cbn [hr_start] in Hs. apply Hst. exact Hs. }
-  destruct (sr_ref s) as [id |] eqn:Er; destruct (sr_start s) as [st |] eqn:Es;
-    try (injection Hc as Hc; subst r; cbn [hr_ref hr_start hr_rl]; auto).
-  destruct (nth_error refsq (N.to_nat id)) as [[ln bases] |]; [| discriminate Hc].
-  destruct (cigar_to_features true bases (sr_seq s) (writer_quals (sr_seq s) (sr_quals s))
-                              (sr_ops s) st) as [ws |]; [| discriminate Hc].
-  injection Hc as Hc. subst r. cbn [hr_ref hr_start hr_rl]. auto.
+  destruct (convert_core _ _ _ _ _) as [[[[rl ms] q] ws]|] eqn:Ec.
+  - injection Hc as Hc. subst r. cbn [hr_ref hr_start hr_rl hr_missing].
+    split; [intros st Hs; cbn [hr_start] in Hs; now apply Hst|]. split; [reflexivity|]. split; [reflexivity|].
+    destruct (convert_core_shape _ _ _ _ _ _ _ _ _ Ec) as (E1 & E2 & _). subst rl ms.
+    unfold core_read_length. destruct (sr_seq s); split; intro H; try congruence; try (split; reflexivity); reflexivity.
+  - destruct (match sr_ref s with Some _ => _ | None => _ end) as [[[?|] ?]|]; discriminate.
 Qed.
 
 (* ---------------------------------------------------------------- calculate_alignment_span *)
